@@ -15,6 +15,9 @@ def build(tier, seed):
     stores = list(fam.slice_store_templates())
     cells = list(fam.aug_cells())
     if tier == "quick":
+        # chained-assignment mixes: a seed-rotated third in the quick tier
+        mix = [x for x in stores if ":chainmix:" in x[0]]
+        stores = [x for x in stores if ":chainmix:" not in x[0]] + rnd.sample(mix, len(mix) // 3)
         chosen = stores + rnd.sample(d2, 70) + rnd.sample(d3, 30) + cells
     else:
         chosen = stores + d2 + d3 + cells
